@@ -351,6 +351,42 @@ def observe(case, kwargs, env, rq):
             obligations.append(dict(name=nm, verdict='unsat' if not problems else 'sat', secs=0, form='L0'))
             if problems:
                 violations.append(dict(name=nm, text='; '.join(problems[:3]), env={}, info=dict(freq=freq, unit=unit, tz=str(tz), start=s, end=e)))
+        # the grids a split set-up builds for its intervals (captured from the real call): step lengths in THEIR main time unit are the elapsed time
+        captured = []
+        TG = eao.basic_classes.Timegrid
+        orig_init = TG.__init__
+
+        def spy(self, *a, **k):
+            orig_init(self, *a, **k)
+            if k.get('ref_timegrid') is not None or (len(a) > 5 and a[5] is not None):
+                captured.append(self)
+        for unit, freq, split in (('d', 'h', '2h'), ('min', '15min', '30min'), ('h', '12h', 'd')):
+            nm = 'split_interval_grids/%s/%s/%s' % (unit, freq, split)
+            del captured[:]
+            tgm = TG(pd.Timestamp('2021-01-04').to_pydatetime(), (pd.Timestamp('2021-01-04') + 4 * (pd.Timedelta(freq) if any(ch.isdigit() for ch in freq) else pd.Timedelta(1, freq))).to_pydatetime(),
+                     freq=freq, main_time_unit=unit)
+            nA = eao.assets.Node('A')
+            pf = eao.portfolio.Portfolio([eao.assets.SimpleContract(name='a', nodes=nA, price='p', min_cap=-1., max_cap=1.)])
+            TG.__init__ = spy
+            try:
+                pf.setup_split_optim_problem(pd.DataFrame({'p': np.arange(4.)}), tgm, interval_size=split)
+            finally:
+                TG.__init__ = orig_init
+            problems = []
+            subs = [g for g in captured if getattr(g, 'T', 0) > 0 and g.freq == tgm.freq]
+            if not subs:
+                problems.append('no interval grid was built')
+            for g in subs:
+                us = refmap.UNIT_S[g.main_time_unit]
+                pts = list(g.timepoints)
+                for i in range(len(pts)):
+                    nxt_ = pts[i + 1] if i + 1 < len(pts) else pd.Timestamp(g.end)
+                    el = (pd.Timestamp(nxt_) - pd.Timestamp(pts[i])).total_seconds() / us
+                    if abs(float(g.dt[i]) - el) > 1e-9 * max(1, abs(el)):
+                        problems.append('interval grid from %s: dt[%d]=%g but %g %s elapse to the next point (main time unit of this grid: %s)' % (pts[0], i, float(g.dt[i]), el, g.main_time_unit, g.main_time_unit))
+            obligations.append(dict(name=nm, verdict='unsat' if not problems else 'sat', secs=0, form='L0'))
+            if problems:
+                violations.append(dict(name=nm, text='; '.join(problems[:2]), env={}, info=dict(unit=unit, freq=freq, split=split)))
         return dict(obligations=obligations, violations=violations, solver_s=0.0, samples=[dict(case='concrete_grids', grids=len(CONCRETE))])
     # replays of symbolic-time candidates: concrete instants from the witness (hours after a reference instant)
     t0 = pd.Timestamp('2021-01-04')
